@@ -54,11 +54,14 @@ def run_one(pid: str, name: str, kind: str, payload, tier: str, seed: int) -> tu
     d = make_copy()
     t0 = time.time()
     try:
-        if kind == "replace":
-            for m in payload if isinstance(payload, list) else [payload]:
-                apply_replace(d, m)
-        else:
-            apply_patch(d, payload)
+        try:
+            if kind == "replace":
+                for m in payload if isinstance(payload, list) else [payload]:
+                    apply_replace(d, m)
+            else:
+                apply_patch(d, payload)
+        except RuntimeError as e:
+            return (name, 3, False, [], round(time.time() - t0, 1), f"cannot apply: {e}")
         env = dict(os.environ, VERIF_REPO=d, VERIF_SEED=str(seed))
         env["VERIF_NO_EVIDENCE"] = "1"
         p = subprocess.run([os.path.join(VERIF_DIR, "check"), pid, "--tier", tier], env=env,
